@@ -44,6 +44,9 @@ type Child struct {
 	Name  string `json:"name"`
 	IsDir bool   `json:"dir"`
 	Size  int    `json:"size"`
+	// Special: 0 none, 1 set-uid, 2 set-gid, 3 sticky: set with Chmod after creation. These are mode bits, not part of
+	// the entry's kind: Type() of the listing entry must still equal Stat's Mode().Type().
+	Special int `json:"special,omitempty"`
 }
 
 // Case is the replay format.
@@ -77,12 +80,18 @@ func populate(fs hackpadfs.FS, c Case) {
 		if c.Dir != "." {
 			p = c.Dir + "/" + ch.Name
 		}
+		perm := hackpadfs.FileMode(0o640)
 		if ch.IsDir {
-			must(hackpadfs.Mkdir(fs, p, 0o750))
+			perm = 0o750
+			must(hackpadfs.Mkdir(fs, p, perm))
 			// a grandchild: must never show up in the listing of the directory under test
 			must(hackpadfs.WriteFullFile(fs, p+"/grandchild", []byte("g"), 0o600))
 		} else {
-			must(hackpadfs.WriteFullFile(fs, p, bytes.Repeat([]byte{'x'}, ch.Size), 0o640))
+			must(hackpadfs.WriteFullFile(fs, p, bytes.Repeat([]byte{'x'}, ch.Size), perm))
+		}
+		if ch.Special != 0 {
+			bit := []hackpadfs.FileMode{0, hackpadfs.ModeSetuid, hackpadfs.ModeSetgid, hackpadfs.ModeSticky}[ch.Special]
+			must(hackpadfs.Chmod(fs, p, perm|bit))
 		}
 	}
 }
@@ -409,7 +418,7 @@ func genCase(t *rapid.T, kind string) Case {
 	}
 	perm := rapid.Permutation(seq(n)).Draw(t, "order")
 	for _, i := range perm {
-		c.Children = append(c.Children, Child{Name: fmt.Sprintf("e%03d", i), IsDir: rapid.IntRange(0, 2).Draw(t, "isdir") == 0, Size: rapid.IntRange(0, 9).Draw(t, "size")})
+		c.Children = append(c.Children, Child{Name: fmt.Sprintf("e%03d", i), IsDir: rapid.IntRange(0, 2).Draw(t, "isdir") == 0, Size: rapid.IntRange(0, 9).Draw(t, "size"), Special: special(t)})
 	}
 	if c.Dir == "." && kind == "submem" {
 		// fine: the view's own root
@@ -432,6 +441,13 @@ func genCase(t *rapid.T, kind string) Case {
 		c.Pre = rapid.SliceOfN(rapid.SampledFrom(pre), 1, 3).Draw(t, "pre")
 	}
 	return c
+}
+
+func special(t *rapid.T) int {
+	if rapid.IntRange(0, 5).Draw(t, "hasspecial") != 0 {
+		return 0
+	}
+	return rapid.IntRange(1, 3).Draw(t, "special")
 }
 
 func seq(n int) []int {
